@@ -689,6 +689,10 @@ class Run:
             'exhaustive': self.exhaustive,
             'known_findings_hit': self.known_hits,
         })
+        # keys of the evidence schema with a fixed type: a check that uses one of these names for something else must not invalidate the file
+        for k in ('states', 'transitions', 'traces_validated_against_impl', 'programs', 'disagreements_checked'):
+            if k in cov and (isinstance(cov[k], bool) or not isinstance(cov[k], int)):
+                cov[k + '_detail'] = cov.pop(k)
         if gate is not None:
             cov.update({
                 'obligations': gate['obligations'],
